@@ -200,7 +200,7 @@ def k_catalog(case):
     errs = []
     try:
         for cleaned in (True, False):
-            for sub, ub in ((True, True), (dict(A=True, pid=True), False), (dict(B=True, rv=True), False)):
+            for sub, ub in ((True, True), (dict(A=True, pid=True), False), (dict(B=True, rv=True), False), (dict(B=True, A=True, pos=True), False), (dict(pid=True, B=True, rv=True, A=True), ['density', 'pid'])):  # key order of the dict is the caller's business
                 for filt in (None, 'none', 'half'):
                     ff = None
                     if filt == 'none':
